@@ -164,6 +164,25 @@ def window_rule(rep, cfg, path, out):
            "x4..x0 must be x5^(2^8), x5^(2^16), x5^(2^24), x5^(2^32), x5^(2^%d) (39 = N - W squarings in all); squaring towers and the levels used: %s" % (
                N_ - 8, [(Tm.show(b, maxdepth=2), js) for b, js in tall.items()]),
            where=cfg.where(path))
+    # the returned flag is tied to the final correction factor: nonsquare_lookup = [1, zeta^((1-M)/2)] is indexed by the low bit of q0',
+    # and `was_square` must be exactly "that bit is 0" (factor 1) - otherwise flag and value describe different cases
+    fl, rv = (res.args[0], res.args[1]) if res.op == "tuple" and len(res.args) == 2 else (None, mk("bottom"))
+    nsq = []
+    for t in Tm.subterms(rv):
+        if t.op == "index" and table_name(t.args[0]) == "nonsquare_lookup":
+            x = t.args[1]
+            while x.op == "cast":
+                x = x.args[1]
+            nsq.append(x)
+    nsq = list({id(x): x for x in nsq}.values())
+    ok_flag = False
+    if fl is not None and len(nsq) == 1:
+        b = nsq[0]
+        is_low_bit = b.op == "band" and any(a_ is lit(1) for a_ in b.args)
+        ok_flag = is_low_bit and (fl is Tm.eq(b, lit(0)) or fl is Tm.not_(Tm.eq(b, lit(1))) or fl is Tm.ne(b, lit(1)))
+    rep.ob("WINDOW/%s/flag" % cfg.name, ok_flag,
+           "the result value must carry exactly one nonsquare_lookup factor, indexed by the low bit b of q0', and was_square must be `b == 0`; indices %s, flag %s" % (
+               [Tm.show(x, maxdepth=3) for x in nsq], Tm.show(fl, maxdepth=4) if fl is not None else None), where=cfg.where(path))
     sexp = [t for t in Tm.subterms(allt) if t.op == "pow" and t.args[1].op == "bigint_of" and Tm.is_lit(t.args[1].args[0]) and t.args[1].args[0].args[0] == (1 << N_) - 1]
     rep.ob("WINDOW/%s/s-exponent" % cfg.name, len(sexp) >= 1, "den must be raised to 2^N - 1 = 2^%d - 1" % N_, where=cfg.where(path), nontrivial=False)
     # final halving
